@@ -191,7 +191,7 @@ func c42Gen(rng *rand.Rand, p c42Params) *c42Case {
 						nd.content = node.Content
 					}
 				case rng.Intn(3) == 0: // recent tree (deep chains)
-					sub = ids[len(ids)-1-rng.Intn(minInt(3, len(ids)))]
+					sub = ids[len(ids)-1-rng.Intn(c42MinInt(3, len(ids)))]
 				default:
 					sub = ids[rng.Intn(len(ids))]
 				}
@@ -314,7 +314,7 @@ func c42Gen(rng *rand.Rand, p c42Params) *c42Case {
 			case pMissing > 0 && rng.Intn(12) == 0:
 				r = append(r, missingID())
 			case rng.Intn(2) == 0:
-				r = append(r, ids[len(ids)-1-rng.Intn(minInt(2, len(ids)))])
+				r = append(r, ids[len(ids)-1-rng.Intn(c42MinInt(2, len(ids)))])
 			default:
 				r = append(r, ids[rng.Intn(len(ids))])
 			}
@@ -331,7 +331,7 @@ func c42Gen(rng *rand.Rand, p c42Params) *c42Case {
 	return c
 }
 
-func minInt(a, b int) int {
+func c42MinInt(a, b int) int {
 	if a < b {
 		return a
 	}
